@@ -276,8 +276,9 @@ EXTRA_EXTRACT_DEPS = []
 DRIVER = os.path.join(BUILD, "ml", "driver")
 
 
-def build_harness(bins, hooks=False):
-    """cargo build the harness bins against /repo's working tree. returns (ok, log)"""
+def build_harness(bins, hooks=False, profile=None):
+    """cargo build the harness bins against /repo's working tree. returns (ok, log)
+    profile "deep": unoptimised (opt-level 0), the default of cargo build / cargo test"""
     with Lock("cargo"):
         hd = os.path.join(VERIF, "harness")
         lock = os.path.join(hd, "Cargo.lock")
@@ -287,7 +288,7 @@ def build_harness(bins, hooks=False):
         env["CARGO_TARGET_DIR"] = TARGET + ("-hooks" if hooks else "")
         if hooks:
             env["RUSTFLAGS"] = "--cfg " + HOOK_CFG
-        cmd = ["cargo", "build", "--offline", "--quiet"]
+        cmd = ["cargo", "build", "--offline", "--quiet"] + (["--profile", profile] if profile else [])
         for b in bins:
             cmd += ["--bin", b]
         rc, out = sh(cmd, cwd=hd, env=env, timeout=1500)
@@ -297,8 +298,8 @@ def build_harness(bins, hooks=False):
         return rc == 0, out
 
 
-def harness_bin(name, hooks=False):
-    return os.path.join(TARGET + ("-hooks" if hooks else ""), "debug", name)
+def harness_bin(name, hooks=False, profile=None):
+    return os.path.join(TARGET + ("-hooks" if hooks else ""), profile or "debug", name)
 
 
 def run_lines(binary, lines, timeout=600, shards=1, env=None):
